@@ -114,6 +114,33 @@ def explore(chk):
                         words_ += [sccgen.pac(r0 + j)] + sccgen.chars_to_words(t_)
                     lines_ += [sccgen.timecode(30, False) + "\t" + " ".join(words_), "", sccgen.timecode(30 + len(words_) + 60, False) + "\t" + sccgen.CMD["EDM"], ""]
                     cases.append(("\n".join(lines_) + "\n", [texts], "paint-many-rows"))
+    # rows whose characters are not all ASCII (accented letters of the basic set, special characters such as the music note):
+    # a row is as long as the number of its cells, whatever stands in them -- the long rows here have no ASCII stretch over 32
+    nsub = chk.sub("non_ascii_rows")
+    K_ = sccgen.tables()
+    specials_ = [(w, ch) for w, ch in sorted(K_.SPECIAL_CHARS.items()) if ch.strip() and len(ch) == 1]
+    for mode_ in ("pop", "paint", "roll"):
+        for n in (32, 33, 36, 40):
+            for kind in ("basic", "special"):
+                items = []; text = ""
+                while len(text) < n:
+                    if len(text) % 11 == 7:
+                        if kind == "basic":
+                            ch = nsub.choice("áéíóúç÷Ññ"); items.append(("c", ch))
+                        else:
+                            w_, ch = nsub.choice(specials_); items.append(("s", w_, ch))
+                    else:
+                        ch = nsub.choice(sccgen.SAFE_CHARS[:52]); items.append(("c", ch))
+                    text += ch
+                row = {"row": 15, "indent": 0, "tab": 0, "italic_pac": False, "items": items}
+                if mode_ == "pop":
+                    cases.append((popon_text([[row]]), [[text]], "pop-non-ascii"))
+                else:
+                    head = [sccgen.CMD["RDC"]] if mode_ == "paint" else [sccgen.CMD["RU2"], sccgen.CMD["CR"]]
+                    words_ = head + sccgen.row_words(row, False)
+                    doc_ = "\n".join(["Scenarist_SCC V1.0", "", sccgen.timecode(30, False) + "\t" + " ".join(words_), "",
+                                      sccgen.timecode(30 + len(words_) + 60, False) + "\t" + sccgen.CMD["EDM"], ""]) + "\n"
+                    cases.append((doc_, [[text]], mode_ + "-non-ascii"))
     N = 300 if chk.tier == "quick" else 8000
     for i in range(N):
         mode = rng.choice(["pop", "pop", "roll", "paint"])
